@@ -276,6 +276,36 @@ def run(ctx):
                             nm = T.field_names(rf, dst['l'], dst['p'])
                             if nm and 'Context' in strip_ty(rf.local_ty(dst['l'])):
                                 written.add(nm[0])
+            # each cache is reset independently of the state of the other caches: in the resetting helper the write of self.<d> stays reachable when every
+            # `if let <Variant> = self.<other cache>` test takes its non-matching edge
+            for rname in sorted(reach):
+                if not rname.startswith('context::Context::') or '{closure' in rname:
+                    continue
+                rf = prog.fn(rname)
+                wr = {}
+                for bi3, b in enumerate(rf.B):
+                    for dst, rv in b['s']:
+                        if dst['p']:
+                            nm = T.field_names(rf, dst['l'], dst['p'])
+                            if nm and nm[0] in derived and 'Context' in strip_ty(rf.local_ty(dst['l'])):
+                                wr.setdefault(nm[0], set()).add(bi3)
+                if len(wr) < 2:
+                    continue
+                for d in sorted(wr):
+                    avoid_edges = set()
+                    for bi3, b in enumerate(rf.B):
+                        t3 = b['t']
+                        if t3['k'] == 'switch':
+                            term = T.op_term(rf, t3['d'])
+                            other = [d2 for d2 in derived if d2 != d and re.search(r'self\.%s\b' % re.escape(d2), term)]
+                            if other:
+                                for v, tb in t3['ts']:
+                                    avoid_edges.add((bi3, tb))
+                    r3 = rf.reachable(0, avoid_edges=avoid_edges)
+                    ok3 = any(w in r3 for w in wr[d])
+                    ctx.ob('C26-D6', rname, 'reset of self.%s' % d, 'independent of the state of the other derived caches', ok3,
+                           detail='' if ok3 else 'self.%s is only reset inside a branch that tests another cache: with a custom resolver on that side the stale default stack (old allow-list) survives a settings change' % d,
+                           site=loc(rf.d['span']))
             for d in sorted(derived):
                 ok = d in written
                 ctx.ob('C26-D6', mut, 'can change self.settings', 'resets derived cache self.%s' % d, ok,
